@@ -29,63 +29,138 @@ func c13ValidateBeforeSkip(c *Ctx) {
 			continue
 		}
 		sf := p.SSAFunc(fr.Obj)
-		var u *ssa.BasicBlock
-		for _, call := range callsIn(sf) {
-			if o := staticCalleeObj(call.Call); o != nil && o.Name() == "unmapArchivePath" {
-				u = call.Instr.Block()
+		funcs := archiveReaderFuncs(sf)
+		// validator sites: calls of unmapArchivePath, and calls of a function of the reader that contains such a site
+		// (the per-entry part of the loop extracted into a helper)
+		hasSite := map[*ssa.Function]bool{}
+		siteBlocks := map[*ssa.Function][]*ssa.BasicBlock{}
+		for changed := true; changed; {
+			changed = false
+			for _, f := range funcs {
+				for _, call := range callsIn(f) {
+					isSite := false
+					if o := staticCalleeObj(call.Call); o != nil && o.Name() == "unmapArchivePath" {
+						isSite = true
+					} else if sc := call.Call.StaticCallee(); sc != nil && hasSite[sc] {
+						isSite = true
+					}
+					if !isSite {
+						continue
+					}
+					known := false
+					for _, b := range siteBlocks[f] {
+						if b == call.Instr.Block() {
+							known = true
+						}
+					}
+					if !known {
+						siteBlocks[f] = append(siteBlocks[f], call.Instr.Block())
+						changed = true
+					}
+					if !hasSite[f] {
+						hasSite[f] = true
+						changed = true
+					}
+				}
 			}
 		}
-		if u == nil {
-			c.Fail(rule, "storagearchive."+name, fr.Decl.Pos(), "no call of unmapArchivePath found")
-			continue
-		}
-		// the innermost loop containing the validator call
-		var h *ssa.BasicBlock
-		var loop map[*ssa.BasicBlock]bool
-		for _, b := range sf.Blocks {
-			if l := loopBlocks(b); l != nil && l[u] && (loop == nil || len(l) < len(loop)) {
-				h, loop = b, l
-			}
-		}
-		if h == nil {
-			c.Fail(rule, "storagearchive."+name, fr.Decl.Pos(), "the validator call is not inside a loop over the entries")
+		if !hasSite[sf] {
+			c.Fail(rule, "storagearchive."+name, fr.Decl.Pos(), "no call of unmapArchivePath found in %s or the helpers it runs per entry", name)
 			continue
 		}
 		var bad []string
 		reviewed := 0
-		for b := range loop {
-			i := ifOf(b)
-			if i == nil || b == u || u.Dominates(b) {
-				continue
-			}
-			reaches, skips := false, false
-			for _, s := range b.Succs {
-				if !loop[s] {
-					continue // leaves the loop: an error return or the end of the archive
+		for _, f := range funcs {
+			for _, u := range siteBlocks[f] {
+				// the innermost loop containing the site, if any; without one the function is the per-entry helper and
+				// "passing over the entry" is a success return
+				var h *ssa.BasicBlock
+				var loop map[*ssa.BasicBlock]bool
+				for _, b := range f.Blocks {
+					if l := loopBlocks(b); l != nil && l[u] && (loop == nil || len(l) < len(loop)) {
+						h, loop = b, l
+					}
 				}
-				if s == u || blockReachesAvoiding(s, u, h) {
-					reaches = true
-				} else {
-					skips = true
+				if h == nil && f == sf {
+					c.Fail(rule, "storagearchive."+name, fr.Decl.Pos(), "the validator is not called inside a loop over the entries")
+					continue
 				}
-			}
-			if !(reaches && skips) {
-				continue
-			}
-			cv, _ := condPolarity(i.Cond)
-			okHelper := false
-			if cl, isCall := stripConv(cv).(*ssa.Call); isCall {
-				if o := staticCalleeObj(&cl.Call); o != nil && c13SkipBeforeValidate[o.Name()] != "" && o.Pkg() != nil && o.Pkg().Path() == fr.Pkg.PkgPath {
-					okHelper = true
-					reviewed++
+				successReturn := func(b *ssa.BasicBlock) bool {
+					r, ok := b.Instrs[len(b.Instrs)-1].(*ssa.Return)
+					if !ok {
+						return false
+					}
+					for _, res := range r.Results {
+						if isErrorType(res.Type()) && !isNilConst(spilledResult(r, res)) {
+							return false
+						}
+					}
+					return true
 				}
-			}
-			if !okHelper {
-				at := i.Cond.Pos()
-				for k := len(b.Instrs) - 1; k >= 0 && at == token.NoPos; k-- {
-					at = b.Instrs[k].Pos()
+				reachesSuccessAvoiding := func(from, avoid *ssa.BasicBlock) bool {
+					seen := map[*ssa.BasicBlock]bool{from: true}
+					work := []*ssa.BasicBlock{from}
+					for len(work) > 0 {
+						x := work[len(work)-1]
+						work = work[:len(work)-1]
+						if x == avoid {
+							continue
+						}
+						if successReturn(x) {
+							return true
+						}
+						for _, s := range x.Succs {
+							if !seen[s] {
+								seen[s] = true
+								work = append(work, s)
+							}
+						}
+					}
+					return false
 				}
-				bad = append(bad, fmt.Sprintf("test at %s", p.Pos(at)))
+				for _, b := range f.Blocks {
+					i := ifOf(b)
+					if i == nil || b == u || u.Dominates(b) || (loop != nil && !loop[b]) {
+						continue
+					}
+					reaches, skips := false, false
+					for _, s := range b.Succs {
+						if loop != nil {
+							if !loop[s] {
+								continue // leaves the loop: an error return or the end of the archive
+							}
+							if s == u || blockReachesAvoiding(s, u, h) {
+								reaches = true
+							} else {
+								skips = true
+							}
+						} else {
+							if s == u || blockReaches(s, u) {
+								reaches = true
+							} else if reachesSuccessAvoiding(s, u) {
+								skips = true
+							}
+						}
+					}
+					if !(reaches && skips) {
+						continue
+					}
+					cv, _ := condPolarity(i.Cond)
+					okHelper := false
+					if cl, isCall := stripConv(cv).(*ssa.Call); isCall {
+						if o := staticCalleeObj(&cl.Call); o != nil && c13SkipBeforeValidate[o.Name()] != "" && o.Pkg() != nil && o.Pkg().Path() == fr.Pkg.PkgPath {
+							okHelper = true
+							reviewed++
+						}
+					}
+					if !okHelper {
+						at := i.Cond.Pos()
+						for k := len(b.Instrs) - 1; k >= 0 && at == token.NoPos; k-- {
+							at = b.Instrs[k].Pos()
+						}
+						bad = append(bad, fmt.Sprintf("test at %s", p.Pos(at)))
+					}
+				}
 			}
 		}
 		c.Ob(rule, "storagearchive."+name+"/skips", fr.Decl.Pos(), len(bad) == 0, true, "%d reviewed skip(s) before the validator; other branches that pass over an entry without validating its name: %v", reviewed, bad)
